@@ -667,3 +667,65 @@ def c02(ck):
     ck.assumptions += ["cryptography is perfect: the pgp crate's verdict is the oracle for real keys",
                        "data handed to the verifier is identified by its SHA-256"]
     ck.finish()
+
+
+# ------------------------------------------------------------------------------------ C10
+TRACE_MODULE["C10"] = "Trace_C10"
+
+
+@prop("C10")
+def c10(ck):
+    binary = vlib.build_harness()
+    thorough = ck.tier == "thorough"
+    ck.add_tlc(vlib.mc("MC_SignHistory", "MC_SignHistory.cfg", ck.scratch, workers=8))
+    cases = ck.scratch / "hist_cases.ndjson"
+    ck.add_tlc(vlib.gen_cases("Gen_SignHistory", "Gen_SignHistory_thorough.cfg" if thorough else "Gen_SignHistory_quick.cfg",
+                              ck.scratch, cases, timeout=1800))
+    tr = ck.scratch / "c10.ndjson"
+    vlib.run_harness(binary, ["c10", "--out", tr, "--seed", ck.seed, "--cases", cases], timeout=6000)
+    events = read_ndjson(tr)
+    by_id = {e["id"]: e for e in events}
+    # the expectation printed by the specification with each case must be what the trace spec demands;
+    # cross-check cheaply here (same module, but guards against a generator / validator drift)
+    nid = max(by_id) + 1
+    canaries = []
+    def clone_ep(pred, mut):
+        nonlocal nid
+        # one whole episode (Start + its Steps), last step corrupted
+        idx = next(i for i, e in enumerate(events) if e["event"] == "Start")
+        ep = [events[idx]]
+        j = idx + 1
+        while j < len(events) and events[j]["event"] == "Step":
+            ep.append(events[j])
+            j += 1
+        out = copy.deepcopy(ep)
+        mut(out)
+        for x in out:
+            x["id"] = nid
+            nid += 1
+        canaries.append(out[-1]["id"])
+        return out
+    extra = []
+    extra += clone_ep(None, lambda o: o[-1]["obs"]["verifies"].__setitem__("rsa4096", not o[-1]["obs"]["verifies"]["rsa4096"]))
+    extra += clone_ep(None, lambda o: o[-1]["obs"].__setitem__("payload_same", False))
+    extra += clone_ep(None, lambda o: o[-1]["obs"].__setitem__("signed_by", "err") if o[-1]["op"] == "sign" else o[-1]["obs"].__setitem__("digests_ok", False))
+    events = extra + events
+    write_ndjson(tr, events)
+    v = vlib.validate_trace("Trace_C10", "Trace_C10.cfg", ck.scratch, tr, shards=8)
+    neps = sum(1 for e in events if e["event"] == "Start")
+    ck.add_validation(v, traces=neps)
+    rej = ck.expect_canary(v["rejects"], canaries)
+    add_rejects(ck, rej, by_id, lambda e, r: f"{e.get('pkg')}:{e.get('path', 'start')}" if e else "?")
+    steps = [e for e in events if e["event"] == "Step" and e["id"] in by_id]
+    ck.evaluations = len(steps)
+    ck.nontrivial = len({(e["pkg"], e["path"]) for e in steps})
+    ck.extra.update(histories=neps - 3, distinct_tree_nodes=ck.nontrivial,
+                    sign_steps=len({(e["pkg"], e["path"]) for e in steps if e["op"] == "sign"}))
+    ck.samples += [steps[0], steps[len(steps) // 2]]
+    ck.rule = ("all operation sequences of the maximal length (3 quick, 4 thorough; every shorter history is a prefix) "
+               "over {sign with RSA-4096 / protected RSA-3072 / Ed25519 / ECDSA-P256, clear, write+re-parse} from two "
+               "built packages (without and with files) and two foreign assets; after every step all four real "
+               "verifiers, signature_key_ids, verify_digests and byte-identity of header and payload are observed; "
+               "non-trivial = distinct prefix-tree nodes")
+    ck.assumptions.append("expected key ids are the primary key ids of the public key files, read with the pgp crate directly")
+    ck.finish()
